@@ -520,8 +520,19 @@ class DAG(nx.DiGraph):
                 f"Model must be an instance of DAG. Got type: {type(model)}"
             )
 
+        def _v_structures(dag):
+            # get_immoralities only reports the parent pairs; I-equivalence also
+            # needs the collider node of each immorality.
+            return {
+                (node, frozenset(parents))
+                for node in dag.nodes()
+                for parents in itertools.combinations(dag.predecessors(node), 2)
+                if not dag.has_edge(parents[0], parents[1])
+                and not dag.has_edge(parents[1], parents[0])
+            }
+
         if (self.to_undirected().edges() == model.to_undirected().edges()) and (
-            self.get_immoralities() == model.get_immoralities()
+            _v_structures(self) == _v_structures(model)
         ):
             return True
         return False
